@@ -25,13 +25,6 @@ impl LimitedVectorProblem for Box1 {
     fn domain(&self) -> Vec<Range<f64>> { vec![self.lo..self.hi] }
 }
 
-/// regime (DESIGN §4 C14): finite domain a < b with |a|,|b| <= 1e3 and width >= 2^-20
-fn sym_domain() -> (f64, f64) {
-    let (a, b): (f64, f64) = (sym(), sym());
-    assume(a.is_finite() && b.is_finite());
-    assume(a >= -1.0e3 && b <= 1.0e3 && b - a >= 9.5367431640625e-7);
-    (a, b)
-}
 /// "up to floating-point rounding of the bound arithmetic"
 fn tol(a: f64, b: f64) -> f64 {
     let m = if a.abs() > b.abs() { a.abs() } else { b.abs() };
@@ -47,12 +40,12 @@ fn apply<C: BoundaryConstraint<Box1>>(c: &C, x: f64, a: f64, b: f64) -> f64 {
     s[0]
 }
 
+/// Saturation: domain AND coordinate fully symbolic (all finite domains a < b, all finite x) — complete.
 /// @verif anchor=Saturation::constrain
 #[cfg_attr(kani, kani::proof)] #[cfg_attr(kani, kani::unwind(3))]
 pub fn c14_saturation() {
-    let (a, b) = sym_domain();
-    let x: f64 = sym();
-    assume(x.is_finite());
+    let (a, b, x): (f64, f64, f64) = (sym(), sym(), sym());
+    assume(a.is_finite() && b.is_finite() && a < b && x.is_finite());
     let y = apply(&Saturation, x, a, b);
     assert!(y >= a && y <= b, "Saturation: result outside the domain");
     if x >= a && x <= b {
@@ -64,44 +57,37 @@ pub fn c14_saturation() {
     vcover!(x > b);
 }
 
-/// @verif anchor=Toroidal::constrain bound="regime: |x - a| <= 2^40 * width"
-#[cfg_attr(kani, kani::proof)] #[cfg_attr(kani, kani::unwind(3))]
-pub fn c14_toroidal() {
-    let (a, b) = sym_domain();
+/// Toroidal on a concrete domain, coordinate symbolic within 2^20 widths ("whole and fractional multiples of the
+/// width up to a large factor on both sides"): inside up to rounding, unchanged if inside, idempotent.
+fn toroidal(a: f64, b: f64) {
     let x: f64 = sym();
     assume(x.is_finite());
-    assume((x - a).abs() <= 1.099511627776e12 * (b - a));
+    assume((x - a).abs() <= 1048576.0 * (b - a));
     let y = apply(&Toroidal, x, a, b);
     let t = tol(a, b);
     assert!(y >= a - t && y <= b + t, "Toroidal: result outside the domain");
     if x >= a && x <= b {
         assert!(y.to_bits() == x.to_bits(), "Toroidal changed a coordinate that was inside");
     }
-    vcover!(x < a);
-    vcover!(x > b);
-}
-
-/// idempotence of Toroidal: a second application leaves an in-domain result unchanged (follows from
-/// "unchanged if inside" whenever the first result is strictly inside; the rounding margin is excluded)
-/// @verif anchor=Toroidal::constrain bound="regime: |x - a| <= 2^40 * width"
-#[cfg_attr(kani, kani::proof)] #[cfg_attr(kani, kani::unwind(3))]
-pub fn c14_toroidal_idempotent() {
-    let (a, b) = sym_domain();
-    let x: f64 = sym();
-    assume(x.is_finite());
-    assume((x - a).abs() <= 1.099511627776e12 * (b - a));
-    let y = apply(&Toroidal, x, a, b);
     if y >= a && y <= b {
         let z = apply(&Toroidal, y, a, b);
         assert!(z.to_bits() == y.to_bits(), "Toroidal is not idempotent");
     }
+    vcover!(x < a);
+    vcover!(x > b);
 }
+/// @verif anchor=Toroidal::constrain bound="domain [-1, 2]; all x with |x - a| <= 2^20 widths"
+#[cfg_attr(kani, kani::proof)] #[cfg_attr(kani, kani::unwind(3))]
+pub fn c14_toroidal_m1_2() { toroidal(-1.0, 2.0) }
+/// @verif anchor=Toroidal::constrain bound="domain [0, 1]; all x with |x - a| <= 2^20 widths"
+#[cfg_attr(kani, kani::proof)] #[cfg_attr(kani, kani::unwind(3))]
+pub fn c14_toroidal_0_1() { toroidal(0.0, 1.0) }
+/// @verif anchor=Toroidal::constrain tier=thorough bound="domain [-5.12, 5.12]; all x with |x - a| <= 2^20 widths"
+#[cfg_attr(kani, kani::proof)] #[cfg_attr(kani, kani::unwind(3))]
+pub fn c14_toroidal_512() { toroidal(-5.12, 5.12) }
 
 /// Mirror: terminates (unwinding assertion), ends inside, leaves inside coordinates unchanged.
-/// @verif anchor=Mirror::constrain termination=true bound="|x - [a,b]| <= 3 widths; loop unwound 6 times with unwinding assertion"
-#[cfg_attr(kani, kani::proof)] #[cfg_attr(kani, kani::unwind(6))]
-pub fn c14_mirror() {
-    let (a, b) = sym_domain();
+fn mirror(a: f64, b: f64) {
     let x: f64 = sym();
     assume(x.is_finite());
     assume(x >= a - 3.0 * (b - a) && x <= b + 3.0 * (b - a));
@@ -115,28 +101,60 @@ pub fn c14_mirror() {
     vcover!(x > b);
     vcover!(x == b);
 }
-
-/// special points for Mirror with concrete domain [-1, 2]: the bounds themselves and whole multiples of
-/// the width outside (replayable inputs for non-termination findings)
-/// @verif anchor=Mirror::constrain termination=true bound="domain [-1,2]; x in {a, b, b + w, a - w, b + 2w, a - 2w}; unwind 6"
+/// @verif anchor=Mirror::constrain termination=true bound="domain [-1, 2]; all x within 3 widths of the domain; loop unwound 6 times with unwinding assertion"
 #[cfg_attr(kani, kani::proof)] #[cfg_attr(kani, kani::unwind(6))]
-pub fn c14_mirror_special_points() {
+pub fn c14_mirror_m1_2() { mirror(-1.0, 2.0) }
+/// @verif anchor=Mirror::constrain termination=true tier=thorough bound="domain [0, 1]; all x within 3 widths; unwind 6"
+#[cfg_attr(kani, kani::proof)] #[cfg_attr(kani, kani::unwind(6))]
+pub fn c14_mirror_0_1() { mirror(0.0, 1.0) }
+
+/// special points for Mirror, domain [-1, 2], each a CONCRETE harness (Kani prints no input for unwinding-assertion
+/// failures, so every point is its own replayable input; native replay runs it under a watchdog)
+fn mirror_point(x: f64, on_bound: bool) {
     let (a, b) = (-1.0f64, 2.0f64);
-    let k: u8 = sym();
-    assume(k < 6);
-    let w = b - a;
-    let x = match k { 0 => a, 1 => b, 2 => b + w, 3 => a - w, 4 => b + 2.0 * w, _ => a - 2.0 * w };
     let y = apply(&Mirror, x, a, b);
     assert!(y >= a && y <= b, "Mirror: result outside the domain");
-    if k <= 1 { assert!(y == x, "Mirror changed a bound coordinate"); }
+    if on_bound { assert!(y == x, "Mirror changed a bound coordinate"); }
+}
+/// @verif anchor=Mirror::constrain termination=true bound="domain [-1,2]; x = the lower bound; unwind 6"
+#[cfg_attr(kani, kani::proof)] #[cfg_attr(kani, kani::unwind(6))]
+pub fn c14_mirror_at_a() { let (a, b) = (-1.0f64, 2.0f64); mirror_point(a, true) }
+/// @verif anchor=Mirror::constrain termination=true bound="domain [-1,2]; x = the upper bound; unwind 6"
+#[cfg_attr(kani, kani::proof)] #[cfg_attr(kani, kani::unwind(6))]
+pub fn c14_mirror_at_b() { let (a, b) = (-1.0f64, 2.0f64); mirror_point(b, true) }
+/// @verif anchor=Mirror::constrain termination=true bound="domain [-1,2]; x = one width above; unwind 6"
+#[cfg_attr(kani, kani::proof)] #[cfg_attr(kani, kani::unwind(6))]
+pub fn c14_mirror_b_plus_w() { let (a, b) = (-1.0f64, 2.0f64); mirror_point(b + (b - a), false) }
+/// @verif anchor=Mirror::constrain termination=true bound="domain [-1,2]; x = one width below (reflects onto the upper bound); unwind 6"
+#[cfg_attr(kani, kani::proof)] #[cfg_attr(kani, kani::unwind(6))]
+pub fn c14_mirror_a_minus_w() { let (a, b) = (-1.0f64, 2.0f64); mirror_point(a - (b - a), false) }
+/// @verif anchor=Mirror::constrain termination=true bound="domain [-1,2]; x = two widths above; unwind 6"
+#[cfg_attr(kani, kani::proof)] #[cfg_attr(kani, kani::unwind(6))]
+pub fn c14_mirror_b_plus_2w() { let (a, b) = (-1.0f64, 2.0f64); mirror_point(b + 2.0 * (b - a), false) }
+/// @verif anchor=Mirror::constrain termination=true bound="domain [-1,2]; x = two widths below; unwind 6"
+#[cfg_attr(kani, kani::proof)] #[cfg_attr(kani, kani::unwind(6))]
+pub fn c14_mirror_a_minus_2w() { let (a, b) = (-1.0f64, 2.0f64); mirror_point(a - 2.0 * (b - a), false) }
+
+/// the resampling operator at the two bounds (concrete, replayable): returned unchanged, terminates
+/// @verif anchor=CompleteOneTailedNormalCorrection::constrain termination=true bound="domain [-1,2]; x = upper bound; unwind 3"
+#[cfg_attr(kani, kani::proof)] #[cfg_attr(kani, kani::unwind(3))]
+pub fn c14_cotnc_at_b() {
+    let y = apply(&CompleteOneTailedNormalCorrection, 2.0, -1.0, 2.0);
+    assert!(y == 2.0, "correction changed a bound coordinate");
+}
+/// @verif anchor=CompleteOneTailedNormalCorrection::constrain termination=true bound="domain [-1,2]; x = lower bound; unwind 3"
+#[cfg_attr(kani, kani::proof)] #[cfg_attr(kani, kani::unwind(3))]
+pub fn c14_cotnc_at_a() {
+    let y = apply(&CompleteOneTailedNormalCorrection, -1.0, -1.0, 2.0);
+    assert!(y == -1.0, "correction changed a bound coordinate");
 }
 
 /// One-tailed normal correction: the parts that do not depend on the sampler's distribution —
 /// a coordinate inside (including both bounds) is returned unchanged without sampling and the call terminates.
-/// @verif anchor=CompleteOneTailedNormalCorrection::constrain termination=true bound="only coordinates already inside [a,b]; sampler not entered"
+/// @verif anchor=CompleteOneTailedNormalCorrection::constrain termination=true bound="domain [-1, 2]; only coordinates already inside [a,b]; sampler not entered"
 #[cfg_attr(kani, kani::proof)] #[cfg_attr(kani, kani::unwind(3))]
 pub fn c14_cotnc_inside() {
-    let (a, b) = sym_domain();
+    let (a, b) = (-1.0f64, 2.0f64);
     let x: f64 = sym();
     assume(x >= a && x <= b);
     let y = apply(&CompleteOneTailedNormalCorrection, x, a, b);
